@@ -354,6 +354,76 @@ Proof.
     apply pow_accept_iff in E as (_ & _ & Hh). lia.
 Qed.
 
+(* ---- the work of a block: compact_to_difficulty --------------------------- *)
+(* never panics, whatever 32 bits a peer puts in the header *)
+Theorem compact_to_difficulty_total c : exists d, compact_to_difficulty c = Some d.
+Proof.
+  unfold compact_to_difficulty. destruct (compact_to_target c) as [t o].
+  destruct (N.eqb_spec t 0) as [->|Hn]; cbn [orb]; [eexists; reflexivity|].
+  destruct o; [eexists; reflexivity|].
+  unfold target_to_difficulty. destruct (N.eqb_spec t 1); [eexists; reflexivity|].
+  destruct (N.eqb_spec t 0); [contradiction|eexists; reflexivity].
+Qed.
+
+Lemma target_to_difficulty_spec t : 2 <= t -> target_to_difficulty t = Some (HSPACE / t).
+Proof.
+  intros Ht. unfold target_to_difficulty.
+  destruct (N.eqb_spec t 1); [lia|]. destruct (N.eqb_spec t 0); [lia|].
+  f_equal. apply N.mod_small. apply N.div_lt_upper_bound; [lia|]. unfold HSPACE, W256. nia.
+Qed.
+
+(* a smaller target is more work; a target inside U256 is at least one unit of work *)
+Theorem target_to_difficulty_antitone t1 t2 d1 d2 :
+  1 <= t1 -> t1 <= t2 -> t2 < W256 ->
+  target_to_difficulty t1 = Some d1 -> target_to_difficulty t2 = Some d2 ->
+  1 <= d2 /\ d2 <= d1 /\ d1 < W256.
+Proof.
+  intros H1 Hle Hw E1 E2.
+  destruct (N.eq_dec t2 1) as [->|Hn2].
+  - assert (t1 = 1) by lia. subst t1. rewrite E1 in E2. inversion E2; subst.
+    unfold target_to_difficulty in E1. cbn in E1. inversion E1; subst. unfold U256_MAX, W256. lia.
+  - rewrite target_to_difficulty_spec in E2 by lia. inversion E2; subst d2.
+    assert (Hd2 : 1 <= HSPACE / t2).
+    { apply N.div_le_lower_bound; [lia|]. unfold HSPACE, W256 in *. lia. }
+    destruct (N.eq_dec t1 1) as [->|Hn1].
+    + unfold target_to_difficulty in E1. cbn in E1. inversion E1; subst d1.
+      assert (HSPACE / t2 < W256) by (apply N.div_lt_upper_bound; [lia|]; unfold HSPACE, W256; nia).
+      unfold U256_MAX, W256 in *. lia.
+    + rewrite target_to_difficulty_spec in E1 by lia. inversion E1; subst d1.
+      repeat split; [exact Hd2| |].
+      * apply N.div_le_compat_l. lia.
+      * apply N.div_lt_upper_bound; [lia|]. unfold HSPACE, W256. nia.
+Qed.
+
+(* every canonical non-zero compact target is positive work, and the work is
+   antitone in the compact value: the chain's total difficulty strictly grows
+   with every block whose target is canonical *)
+Theorem compact_to_difficulty_antitone c1 c2 :
+  canonicalb c1 = true -> canonicalb c2 = true -> c1 <> 0 -> c1 <= c2 ->
+  exists d1 d2, compact_to_difficulty c1 = Some d1 /\ compact_to_difficulty c2 = Some d2 /\
+                1 <= d2 /\ d2 <= d1 /\ d1 < W256.
+Proof.
+  intros H1 H2 Hn Hle.
+  destruct (compact_encode_decode c1 H1) as (Ho1 & Hw1 & He1).
+  destruct (compact_encode_decode c2 H2) as (Ho2 & Hw2 & He2).
+  assert (Ht1 : fst (compact_to_target c1) <> 0).
+  { intros E. rewrite E in He1. vm_compute in He1. lia. }
+  assert (Ht12 : fst (compact_to_target c1) <= fst (compact_to_target c2)).
+  { destruct (N.eq_dec c1 c2) as [->|Hne]; [lia|].
+    pose proof (compact_to_target_strictly_monotone c1 c2 H1 H2 ltac:(lia)). lia. }
+  unfold compact_to_difficulty.
+  destruct (compact_to_target c1) as [t1 o1], (compact_to_target c2) as [t2 o2]. cbn [fst snd] in *. subst o1 o2.
+  destruct (N.eqb_spec t1 0); [contradiction|]. destruct (N.eqb_spec t2 0); [lia|]. cbn [orb].
+  destruct (target_to_difficulty t1) as [d1|] eqn:E1.
+  2:{ unfold target_to_difficulty in E1. destruct (N.eqb_spec t1 1); [discriminate|].
+      destruct (N.eqb_spec t1 0); [contradiction|discriminate]. }
+  destruct (target_to_difficulty t2) as [d2|] eqn:E2.
+  2:{ unfold target_to_difficulty in E2. destruct (N.eqb_spec t2 1); [discriminate|].
+      destruct (N.eqb_spec t2 0); [lia|discriminate]. }
+  exists d1, d2. split; [reflexivity|]. split; [reflexivity|].
+  apply (target_to_difficulty_antitone t1 t2 d1 d2); try assumption; lia.
+Qed.
+
 (* non-vacuity *)
 Example compact_examples :
   canonicalb DIFF_TWO = true /\ compact_to_target DIFF_TWO = (2 ^ 255, false) /\
